@@ -228,3 +228,42 @@ def check_componentwise(ck, prog, rule: str, name: str, label: str = None):
         ck.ok(rule, m.qualname, label or f"{name} applied to ns, ew, vt with the caller's arguments")
     else:
         ck.violation(rule, m.qualname, f"component-wise {name}", f"{name} is not applied to all three components with the caller's arguments: " + "; ".join(sorted(set(problems))[:3]), loc=m.loc())
+
+
+def dispatch_table(prog, qualname: str, subject: str, keys):
+    """Which package function a dispatcher hands `(records, settings)` to for each literal value of `settings.<subject>`, by
+    value: {key: (callee name, argument terms)} with callee None when the key is refused - whether the dispatcher looks the key
+    up in a module-level table of functions or walks an if-ladder (`==`, `in (...)`, `in <TABLE>`)."""
+    import sympy as _sp
+    from ..pathtable import PathTable, outcomes, specialise, tidy_items
+    f = prog.func(qualname)
+    leaves = PathTable(prog, f.module, unroll=True, structured=True, inline_depth=0).leaves(f.node.body)
+    SUBJ = _sp.Function("attr_" + subject)(_sp.Symbol("settings", real=True))
+    fn = lambda x: getattr(getattr(x, "func", None), "__name__", "")      # noqa: E731
+    out = {}
+    for k in list(keys) + ["<an unknown name>"]:
+        world = {SUBJ: _sp.Symbol(f"'{k}'")}
+        # a private copy of the settings (copy.deepcopy(settings), ...) has the same method name
+        for l_ in leaves:
+            terms = [c_ for c_, _t in l_.conds] + ([l_.value] if l_.value is not None else [])
+            for t_ in terms:
+                for a_ in _sp.preorder_traversal(_sp.sympify(t_)):
+                    if fn(a_) == "attr_" + subject and len(a_.args) == 1 and fn(a_.args[0]) in ("deepcopy", "copy") and a_.args[0].args \
+                            and a_.args[0].args[-1] == _sp.Symbol("settings", real=True):
+                        world[a_] = _sp.Symbol(f"'{k}'")
+        rows = outcomes(leaves, world)
+        rets = [r for r in rows if r["exit"] == "return" and not r["failed"]]
+        if not rets:
+            out[k] = (None, ())
+            continue
+        vals = {tidy_items(specialise(r["value"], world)) for r in rets}
+        if len(vals) != 1:
+            raise AnalysisError(f"{qualname}: {len(vals)} different results for '{k}'")
+        v = next(iter(vals))
+        if fn(v) == "call" and getattr(v.args[0], "is_Symbol", False):
+            out[k] = (v.args[0].name, tuple(v.args[1:]))
+        elif isinstance(v, _sp.Function) and not fn(v).startswith(("getitem", "get")):
+            out[k] = (fn(v), tuple(v.args))
+        else:
+            raise AnalysisError(f"{qualname}: for '{k}' the dispatcher returns {str(v)[:120]}")
+    return out
